@@ -1,5 +1,6 @@
 from __future__ import annotations
 
+import io
 import pprint
 import string
 import sys
@@ -214,7 +215,10 @@ def dumpstruct(
     if isinstance(obj, Structure):
         return _dumpstruct(obj, obj.dumps(), offset, color, output)
     if issubclass(obj, Structure) and data is not None:
-        return _dumpstruct(obj(data), data, offset, color, output)
+        # Show the bytes the structure was parsed from, not whatever follows them in ``data``
+        stream = io.BytesIO(data)
+        parsed = obj(stream)
+        return _dumpstruct(parsed, data[: stream.tell()], offset, color, output)
     raise ValueError("Invalid arguments")
 
 
